@@ -110,6 +110,8 @@ pub mod mapmodel {
 pub mod permissions;
 #[path = "real/builtin_mod.rs"]
 pub mod builtin;
+#[path = "real/units.rs"]
+pub mod units;
 /// source slices (see /verif/kani/unit/slices and vlib/slices.py)
 #[path = "real/slices_mod.rs"]
 pub mod slices;
